@@ -321,6 +321,9 @@ class Job:
         # This is true while the job holds resource limits that still need to be released.
         self.holds_limits: bool = False
 
+        # This is true if the job had to wait in the queue of jobs pending on resource limits.
+        self.waited_for_limits: bool = False
+
         # Hash of the CallNode associated with running this job. This hash requires knowledge
         # of the Job's result, hence is available after either computing or retrieving the result.
         self.call_hash: Optional[str] = None
@@ -1607,10 +1610,22 @@ class Scheduler:
             self._release_resources(job.get_limits())
             self._check_jobs_pending_limits()
 
+    def _recheck_limits_after_unused_nomination(self, job: Job) -> None:
+        """
+        A job that waited for resource limits was nominated to run, but turned out to need no
+        resources (in the meantime its result became available from a duplicate job or the cache).
+        The jobs that were left waiting because of its nomination get another chance now, since
+        no job completion will follow that would trigger it.
+        """
+        if job.waited_for_limits:
+            job.waited_for_limits = False
+            self._check_jobs_pending_limits()
+
     def _add_job_pending_limits(self, job: Job, eval_args: tuple[tuple, dict]) -> None:
         """
         Adds a job to the queue of jobs waiting to run once resources are available.
         """
+        job.waited_for_limits = True
         self._jobs_pending_limits.append((job, eval_args))
 
     def _add_limits(self, limits1, limits2):
@@ -1741,6 +1756,7 @@ class Scheduler:
             if job.recording_provenance():
                 self.backend.record_job_start(job)
 
+            self._recheck_limits_after_unused_nomination(job)
             return
 
         # Check cache for job.
@@ -1766,6 +1782,8 @@ class Scheduler:
             # There's no work to do, but be sure we consider it started.
             if job.recording_provenance():
                 self.backend.record_job_start(job)
+
+            self._recheck_limits_after_unused_nomination(job)
 
             # Trigger downstream steps, just like an executor would, upon completing it.
             # One of the roles of `done_job` is to trigger evaluation on `result`, in case it is
